@@ -95,3 +95,69 @@ CONSTS = [
     ("c_FLOOR_registry", _EPM, "sorted(int(k) for k in _FLOOR_TYPE_REGISTRY)", "bytes"),
     ("c_EptMap_opnum", _EPM, "EptMap(None, [], None, 0).opnum", "Z"),
 ]
+
+# whole functions as Prelude/PyAst syntax (gen/F_rpc.v); world Flow/World_rpc.v, tie theorems in Proofs/Flow_rpc_<group>.v
+from ..flow import Flow  # noqa: E402
+
+_F12 = ("C12",)
+_F1218 = ("C12", "C18")
+FLOWS = [
+    # ---- _rpc/_pdu.py (Proofs/Flow_rpc_pdu.v) --------------------------------------------------
+    Flow("k_flow_datarep_pack", "_rpc/_pdu.py", "DataRep.pack", props=_F12),
+    Flow("k_flow_datarep_unpack", "_rpc/_pdu.py", "DataRep.unpack", props=_F12),
+    Flow("k_flow_pduheader_pack", "_rpc/_pdu.py", "PDUHeader.pack", props=_F12),
+    Flow("k_flow_pduheader_unpack", "_rpc/_pdu.py", "PDUHeader.unpack", props=_F12),
+    Flow("k_flow_sectrailer_pack", "_rpc/_pdu.py", "SecTrailer.pack", props=_F12),
+    Flow("k_flow_sectrailer_unpack", "_rpc/_pdu.py", "SecTrailer.unpack", props=_F12),
+    Flow("k_flow_fault_pack", "_rpc/_pdu.py", "Fault.pack", props=_F12),
+    Flow("k_flow_fault_unpack", "_rpc/_pdu.py", "Fault._unpack", props=_F12),
+    # ---- _rpc/_request.py (Proofs/Flow_rpc_request.v) ------------------------------------------
+    Flow("k_flow_response_pack", "_rpc/_request.py", "Response.pack", props=_F12),
+    Flow("k_flow_response_unpack", "_rpc/_request.py", "Response._unpack", props=_F12),
+    Flow("k_flow_request_pack", "_rpc/_request.py", "Request.pack", props=_F12),
+    Flow("k_flow_request_unpack", "_rpc/_request.py", "Request._unpack", props=_F12),
+    # ---- _rpc/_bind.py (Proofs/Flow_rpc_bind.v) ------------------------------------------------
+    Flow("k_flow_syntaxid_pack", "_rpc/_bind.py", "SyntaxId.pack", props=_F12),
+    Flow("k_flow_syntaxid_unpack", "_rpc/_bind.py", "SyntaxId.unpack", props=_F12),
+    Flow("k_flow_contextelement_pack", "_rpc/_bind.py", "ContextElement.pack", props=_F12),
+    Flow("k_flow_contextelement_unpack", "_rpc/_bind.py", "ContextElement.unpack", props=_F12),
+    Flow("k_flow_contextresult_pack", "_rpc/_bind.py", "ContextResult.pack", props=_F12),
+    Flow("k_flow_contextresult_unpack", "_rpc/_bind.py", "ContextResult.unpack", props=_F12),
+    Flow("k_flow_bindack_pack", "_rpc/_bind.py", "BindAck.pack", props=_F12),
+    Flow("k_flow_bindack_unpack", "_rpc/_bind.py", "BindAck._unpack", props=_F12),
+    Flow("k_flow_bindnak_pack", "_rpc/_bind.py", "BindNak.pack", props=_F12),
+    Flow("k_flow_bindnak_unpack", "_rpc/_bind.py", "BindNak._unpack", props=_F12),
+    Flow("k_flow_bind_pack", "_rpc/_bind.py", "Bind.pack", props=_F12),
+    Flow("k_flow_bind_unpack", "_rpc/_bind.py", "Bind._unpack", props=_F12),
+    Flow("k_flow_altercontext_unpack", "_rpc/_bind.py", "AlterContext._unpack", props=_F12),
+    Flow("k_flow_altercontextresponse_unpack", "_rpc/_bind.py", "AlterContextResponse._unpack", props=_F12),
+    Flow("k_flow_btfn", "_rpc/_bind.py", "bind_time_feature_negotiation", props=_F12),
+    # ---- _rpc/_verification.py (Proofs/Flow_rpc_vt.v) ------------------------------------------
+    Flow("k_flow_command_pack", "_rpc/_verification.py", "Command.pack", props=_F12),
+    Flow("k_flow_command_unpack", "_rpc/_verification.py", "Command.unpack", props=_F12),
+    Flow("k_flow_cmdbitmask_pack", "_rpc/_verification.py", "CommandBitmask.pack", props=_F12),
+    Flow("k_flow_cmdbitmask_unpack", "_rpc/_verification.py", "CommandBitmask._unpack", props=_F12),
+    Flow("k_flow_cmdpcontext_pack", "_rpc/_verification.py", "CommandPContext.pack", props=_F12),
+    Flow("k_flow_cmdpcontext_unpack", "_rpc/_verification.py", "CommandPContext._unpack", props=_F12),
+    Flow("k_flow_cmdheader2_pack", "_rpc/_verification.py", "CommandHeader2.pack", props=_F12),
+    Flow("k_flow_cmdheader2_unpack", "_rpc/_verification.py", "CommandHeader2._unpack", props=_F12),
+    Flow("k_flow_vt_pack", "_rpc/_verification.py", "VerificationTrailer.pack", props=_F12),
+    Flow("k_flow_vt_unpack", "_rpc/_verification.py", "VerificationTrailer.unpack", props=_F12),
+    # ---- _epm.py: floors and the reply (Proofs/Flow_rpc_epm.v: C12 and C18) ---------------------
+    Flow("k_flow_floor_pack", "_epm.py", "Floor.pack", props=_F1218),
+    Flow("k_flow_floor_unpack", "_epm.py", "Floor.unpack", props=_F1218),
+    Flow("k_flow_tcpfloor_pack", "_epm.py", "TCPFloor.pack", props=_F1218),
+    Flow("k_flow_tcpfloor_unpack", "_epm.py", "TCPFloor._unpack", props=_F1218),
+    Flow("k_flow_ipfloor_pack", "_epm.py", "IPFloor.pack", props=_F1218),
+    Flow("k_flow_ipfloor_unpack", "_epm.py", "IPFloor._unpack", props=_F1218),
+    Flow("k_flow_rpccofloor_pack", "_epm.py", "RPCConnectionOrientedFloor.pack", props=_F1218),
+    Flow("k_flow_rpccofloor_unpack", "_epm.py", "RPCConnectionOrientedFloor._unpack", props=_F1218),
+    Flow("k_flow_uuidfloor_pack", "_epm.py", "UUIDFloor.pack", props=_F1218),
+    Flow("k_flow_uuidfloor_unpack", "_epm.py", "UUIDFloor._unpack", props=_F1218),
+    Flow("k_flow_eptmapresult_pack", "_epm.py", "EptMapResult.pack", props=_F1218),
+    Flow("k_flow_eptmapresult_unpack", "_epm.py", "EptMapResult.unpack", props=_F1218),
+    # ---- _epm.py: the request (Proofs/Flow_rpc_eptmap.v: C12) ----------------------------------
+    Flow("k_flow_build_tcpip_tower", "_epm.py", "build_tcpip_tower", props=_F12),
+    Flow("k_flow_eptmap_pack", "_epm.py", "EptMap.pack", props=_F12),
+    Flow("k_flow_eptmap_unpack", "_epm.py", "EptMap.unpack", props=_F12),
+]
